@@ -375,15 +375,15 @@ pub proof fn lemma_lex_ext(s: Seq<char>, top: bool)
 // size bounds for texts: every tree (vector) the texts are accepted as is small (see spec/size.rs)
 pub open spec fn texts_small(fs: Seq<&str>, ext: bool) -> bool {
     forall|v: Seq<HctlTreeNode>| v.len() == fs.len() && (forall|i: int| 0 <= i < v.len() ==> accepted(fs[i]@, ext, view_tree(#[trigger] v[i])))
-        ==> #[trigger] roots_total(v) < i32::MAX
+        ==> #[trigger] roots_total(v) < i32::MAX && (forall|i: int| 0 <= i < v.len() ==> rsmall(view_tree(#[trigger] v[i])))
 }
-pub open spec fn text_small(f: Seq<char>, ext: bool) -> bool { forall|t: STree| #[trigger] accepted(f, ext, t) ==> s_size(t) < i32::MAX }
+pub open spec fn text_small(f: Seq<char>, ext: bool) -> bool { forall|t: STree| #[trigger] accepted(f, ext, t) ==> s_size(t) < i32::MAX && rsmall(t) }
 pub proof fn lemma_text_small_single(f: &str, ext: bool, fs: Seq<&str>)
     requires text_small(f@, ext), fs.len() == 1, fs[0] == f
     ensures texts_small(fs, ext)
 {
     assert forall|v: Seq<HctlTreeNode>| v.len() == fs.len() && (forall|i: int| 0 <= i < v.len() ==> accepted(fs[i]@, ext, view_tree(#[trigger] v[i])))
-        implies #[trigger] roots_total(v) < i32::MAX by {
+        implies #[trigger] roots_total(v) < i32::MAX && (forall|i: int| 0 <= i < v.len() ==> rsmall(view_tree(#[trigger] v[i]))) by {
         lemma_roots_single(v);
         assert(accepted(fs[0]@, ext, view_tree(v[0])));
     }
